@@ -50,19 +50,33 @@ type Q struct {
 
 // Reach answers whether some path from q.From reaches a Target instruction
 // without executing a Blocked instruction or following a Cut edge. It returns
-// the witness instruction.
+// the witness instruction. One piece of path sensitivity is built in: when a
+// block ends in `if φ` and φ (a boolean φ-node of that block) is a constant on
+// the edge the path came in by, only the feasible successor is followed (this
+// is the shape `x := a && b; if x` lowers to).
 func Reach(q Q) (ssa.Instruction, bool) {
-	seen := map[*ssa.BasicBlock]bool{}
-	var work []At
-	work = append(work, q.From...)
+	type state struct {
+		at  At
+		cls int // 0 unknown, 1 the block's φ-condition is true, 2 false
+	}
+	type key struct {
+		b   *ssa.BasicBlock
+		cls int
+	}
+	seen := map[key]bool{}
+	var work []state
+	for _, f := range q.From {
+		work = append(work, state{f, 0})
+	}
 	for len(work) > 0 {
-		at := work[len(work)-1]
+		st := work[len(work)-1]
 		work = work[:len(work)-1]
+		at := st.at
 		if at.Idx == 0 {
-			if seen[at.B] {
+			if seen[key{at.B, st.cls}] || seen[key{at.B, 0}] {
 				continue
 			}
-			seen[at.B] = true
+			seen[key{at.B, st.cls}] = true
 		}
 		stopped := false
 		for i := at.Idx; i < len(at.B.Instrs); i++ {
@@ -78,16 +92,70 @@ func Reach(q Q) (ssa.Instruction, bool) {
 		if stopped {
 			continue
 		}
-		for _, s := range at.B.Succs {
+		for si, s := range at.B.Succs {
 			if q.Cut != nil && q.Cut(Edge{at.B, s}) {
 				continue
 			}
-			if !seen[s] {
-				work = append(work, At{s, 0})
+			if st.cls != 0 && len(at.B.Succs) == 2 {
+				// if-terminated block whose condition is known on this path
+				if (st.cls == 1 && si == 1) || (st.cls == 2 && si == 0) {
+					continue
+				}
 			}
+			work = append(work, state{At{s, 0}, phiCondClass(at.B, s)})
 		}
 	}
 	return nil, false
+}
+
+// phiCondClass: when s ends in `if φ` with φ a φ-node of s (possibly under !),
+// and φ's incoming value on the edge from pred is a boolean constant, return
+// 1 (condition true) or 2 (false); else 0.
+func phiCondClass(pred, s *ssa.BasicBlock) int {
+	if len(s.Instrs) == 0 {
+		return 0
+	}
+	iff, ok := s.Instrs[len(s.Instrs)-1].(*ssa.If)
+	if !ok {
+		return 0
+	}
+	v := iff.Cond
+	flip := false
+	for {
+		if u, ok := v.(*ssa.UnOp); ok && u.Op == token.NOT {
+			v, flip = u.X, !flip
+			continue
+		}
+		break
+	}
+	phi, ok := v.(*ssa.Phi)
+	if !ok || phi.Block() != s {
+		return 0
+	}
+	// the block must not have side effects we would skip: only φs and the if matter for feasibility
+	idx := -1
+	n := 0
+	for i, p := range s.Preds {
+		if p == pred {
+			idx = i
+			n++
+		}
+	}
+	if idx < 0 || n != 1 {
+		return 0
+	}
+	c, ok := phi.Edges[idx].(*ssa.Const)
+	if !ok || c.Value == nil {
+		return 0
+	}
+	val := c.Value.String() == "true"
+	if flip {
+		val = !val
+	}
+	if val {
+		return 1
+	}
+	return 2
 }
 
 // IsReturn matches normal returns.
